@@ -1,6 +1,7 @@
 (** C14 - bulk ingestion becomes visible atomically and overrides older data. *)
 From LsmV Require Import Model.Tree Model.History Model.Snapshot Model.Version Model.Cert
      Proofs.Newest Proofs.Lookup Proofs.Cert Proofs.Snapshot Proofs.Version Proofs.Ingest.
+From LsmV Require Model.BlockIndex Proofs.BlockIndex.
 Open Scope N_scope.
 
 (** (1) an ingested table (entries stored with local seqno 0, shifted by the global seqno g
@@ -50,3 +51,12 @@ Proof.
   rewrite (sv_get_sound flt sv I F k S). exact (content_agrees_sound _ _ _ A k).
 Qed.
 Print Assumptions C14_certified_reads.
+
+(** (5) the read paths of an ingested table apply its global seqno to EVERY item: the compaction
+    scanner returns all items of all blocks shifted by g, and the point read translates the
+    snapshot by g (saturating) - for every cut of the items into data blocks and every index kind *)
+Theorem C14_scanner_shifts_every_item : forall bt : LsmV.Model.BlockIndex.btable,
+  LsmV.Proofs.BlockIndex.btable_wf bt ->
+  LsmV.Model.BlockIndex.btable_scan bt = ents (LsmV.Proofs.BlockIndex.flat_of bt).
+Proof. exact LsmV.Proofs.BlockIndex.btable_scan_flat. Qed.
+Print Assumptions C14_scanner_shifts_every_item.
